@@ -15,6 +15,7 @@ import warnings
 import xgi
 
 from .. import c10_lib as L
+from .. import c10_wide as W
 from ..core import TRUSTED_COMMON, VERIF, Infra, build_and_audit, canon, finish, idkey, jhash, run_driver
 from ..fn import all_small_hypergraphs, conclude, enc_net
 
@@ -353,14 +354,17 @@ def fixed_cases(rng):
     return out
 
 
-def load_corpus():
+def load_corpus(wide=False):
+    """corpus/C10/*.json; the second-round families (`"f": "wide"`, predicate only) are kept apart"""
     cases = []
     for f in sorted(glob.glob(os.path.join(VERIF, "corpus", "C10", "*.json"))):
         try:
             j = json.load(open(f))
-            cases.append(j["case"] if "case" in j else j)
+            c = j["case"] if "case" in j else j
         except Exception as ex:  # noqa
             raise Infra(f"unreadable corpus file {f}: {ex}")
+        if (c.get("f") == "wide") == wide:
+            cases.append(c)
     return cases
 
 
@@ -396,7 +400,16 @@ def run(ctx):
                 "DiEdgeView.dimembers() read back by DiHypergraph(...) / to_dihypergraph), "
                 "a DiHypergraph given to every converter (also those documented for undirected input: outcome classified and recorded), "
                 "plus hand-built networkx graphs in random vertex/edge insertion orders and (node,edge)/(edge,node) orientations incl. "
-                "invalid ones; non-trivial = distinct case whose network has an edge with >=2 members")
+                "invalid ones; non-trivial = distinct case whose network has an edge with >=2 members.  Second round (harness/c10_wide.py, "
+                "predicate only): label pools tuple / nested and mixed tuple / tuple of str / numpy int64, int32 / float / above 2**53 / "
+                "str()-colliding (1 and '1') for nodes and edge IDs x every converter pair and class route; member containers list / tuple / set / "
+                "frozenset / dict keys / dict values / generator / iterator / ndarray, bipartite edge lists as lists / tuple / 2-D object array / "
+                "rows as arrays, 13 matrix containers (ndarray, np.matrix, csr/csc/coo/lil array and matrix, int8 / bool / float dtypes) x label "
+                "lists as list / tuple / 1-D object array, dataframes filtered / concatenated / shuffled / string-indexed / offset / reversed index; "
+                "trivial subclasses MyH / MyD / MyS as sources; per run two networks with 70-90 nodes, 130-140 parallel edges, one edge above 64 "
+                "members, node labels and an edge ID above 2**53; held objects: all to_* functions, one edit of the same object (same-ID "
+                "replacement, member exchange, add edge, remove node, remove edge), all to_* functions again vs a freshly built equal network; "
+                "DiEdgeView.dimembers() list / dict / tuple pairs through DiHypergraph(...) and to_dihypergraph with no / class / instance create_using")
     cases = load_corpus() + fixed_cases(ctx.rng) + generated(ctx.rng, ctx.n(400, 10000))
     dis = run_cases(ctx, cases)
     if not ctx.quick:
@@ -406,13 +419,33 @@ def run(ctx):
         ctx.extra["exhaustive_scope"] = ("correspondence + predicate on every hypergraph with 4 nodes and <=3 distinct non-empty edges "
                                          f"x every converter pair ({len(ex)} cases); validation of the model, not the proof")
 
+    # second round: the families outside the first generator's regime (labels, containers, subclasses, size, held objects,
+    # directed lists / dicts through to_dihypergraph) - predicate on the real code only
+    def wide(k):
+        W.run_wide(ctx, W.gen_cases(ctx.rng, n_labels=ctx.n(120, 1500) // k, n_containers=ctx.n(80, 1000) // k, n_classes=ctx.n(45, 600) // k,
+                                    n_held=ctx.n(150, 2000) // k, n_big=ctx.n(2, 8)))
+
+    W.run_wide(ctx, load_corpus(wide=True), do_shrink=False)
+    wide(1)
+
     def search():
         run_cases(ctx, generated(ctx.rng, ctx.n(400, 8000)), label="C10 targeted search", record=False)
+        wide(2)
 
     conclude(ctx, ok, dis, search)
     ctx.assumptions = [
-        "IDs restricted to int/str (no bool/float/tuple/None IDs); attribute keys are strings, values None / int / float / bool / str / "
-        "lists / str-keyed dicts (the model carries non-int/str values as opaque canonical JSON text)",
+        "model-tied families (first round): IDs int/str only; attribute keys are strings, values None / int / float / bool / str / "
+        "lists / str-keyed dicts (the model carries non-int/str values as opaque canonical JSON text).  Predicate-only families (second round, "
+        "coverage.distribution 'wide:*'): tuple, numpy-integer, float, above-2**53 and str()-colliding IDs, no attributes; bool and None IDs are "
+        "not generated (True == 1 collides; None is refused by the library)",
+        "second-round families carry no attributes and are never sent to the model; the hypergraph dict is judged there only for labels whose str() "
+        "casts are distinct and whose member sets can be sorted (the refusals are the first round's modelled answers); numpy arrays as member "
+        "containers are generated for every target class (a SimplicialComplex target fails on the unchanged tree: listed finding); a list whose "
+        "first edge is not a set and starts with an iterable label is ambiguous for the library's format sniffer (review 2, V4): failures on "
+        "exactly those lists are reported under the one class first-edge-read-as-members-id-pair (listed finding)",
+        "held-object family: the second call is compared with the same call on a network rebuilt from the edited object's own nodes / edges "
+        "(IDs included; automatic face IDs of a simplicial-complex result are compared as member sets); only to_* functions are held - the "
+        "from_* side builds new objects",
         "directed networks, decided per converter by its docstring: to_bipartite_edgelist ('H : Hypergraph, SimplicialComplex, or "
         "DiHypergraph object'), to_bipartite_graph ('H: xgi.Hypergraph or xgi.DiHypergraph'), to_hif_dict ('H: Hypergraph, DiHypergraph, or "
         "SimplicialComplex object') and the class constructors are checked with direction.  The other converters document undirected "
@@ -437,7 +470,10 @@ def run(ctx):
         "create_using must be cleared, populated and (when something is returned) be the object returned (create-using).  A simplicial "
         "complex sent through the two-column dataframe and read back with create_using=SimplicialComplex keeps its simplices (incidence) "
         "and - the dataframe carries them - their IDs (edge-labels; model request dataframe_sc, theorem dataframe_rt_sc).  The directed "
-        "hyperedge dict / list (DiEdgeView.dimembers) is predicate-only",
+        "hyperedge dict / list (DiEdgeView.dimembers) is predicate-only; through xgi.to_dihypergraph WITHOUT create_using it is generated by "
+        "the second-round 'directed' family only (review 2, V15: listed finding)",
+        "unlabelled incidence matrix: judged by 'ID = row / column index' only; the iteration order of the result's nodes / edges is scipy's "
+        "row-major first-appearance order (list(R.edges) may be [1, 0]) and is not compared",
         "the bipartite-graph / dataframe / edge-list / matrix round trips are judged on incidences (and labels or positions) only: these "
         "representations cannot carry empty edges or, for some, isolated nodes; the statement asks those of the two dicts only",
         "node order / edge order are compared only where they do not depend on Python set iteration order",
@@ -452,6 +488,10 @@ def replay(ctx, path):
     j = json.load(open(path))
     case = j["case"] if "case" in j else j
     ok = build_and_audit(ctx, "XgiModel.Props.C10", ["XgiModel.C10.Drive"])
-    dis = run_cases(ctx, [case])
+    if case.get("f") == "wide":
+        W.run_wide(ctx, [case], do_shrink=False)
+        dis = []
+    else:
+        dis = run_cases(ctx, [case])
     conclude(ctx, ok, dis)
     return finish(ctx, trusted_base=TRUSTED_COMMON)
